@@ -116,9 +116,9 @@ def scenarios_for(rnd, d, ob, facts, tier):
         if kf == "KF-C06-1":
             sc("fail", fail=["New%sT2" % P], delay=0)
         elif kf == "KF-C07-1":
-            sc("cancel", cancel_on=dict(kind="before", fn=""), delay=0, gates={"New%sT3" % P: [dict(kind="never", fn="")]}, gate_ms=300)
-        elif kf == "KF-C07-2":
             sc("cancel", cancel_on=dict(kind="before", fn=""), delay=0, gates={"New%sT1" % P: [dict(kind="never", fn="")]}, gate_ms=300)
+        elif kf == "KF-C07-2":
+            sc("cancel", cancel_on=dict(kind="before", fn=""), delay=0, gates={"New%sT3" % P: [dict(kind="never", fn="")]}, gate_ms=300)
         elif kf == "KF-C08-1":
             sc("fail", fail=["New%sT3" % P], delay=0)
         sc("free", delay=0)
